@@ -225,7 +225,24 @@ pub fn record(output: &str) {
         let robot = if k % 2 == 0 { OPWKinematics::new(p) } else {
             OPWKinematics::new_with_constraints(p, Constraints::new([-0.5, -1.0, 0.2, 2.0, -3.0, 1.0], [0.5, 1.5, 0.1, 2.0, 3.0, -1.0], 0.3))
         };
-        let want = oracle::chain(&p, &q);
+        // one robot in nine sits behind a parallelogram coupling: the same chain at the joint vector with the coupled
+        // joint reduced by scaling times the driven one, through both forward functions of the wrapper
+        let coupling = if k % 9 == 7 {
+            let driven = r.gen_range(0..6);
+            let mut coupled = r.gen_range(0..5);
+            if coupled >= driven { coupled += 1; }
+            Some((driven, coupled, [1.0, -1.0, 0.5, 1.7][r.gen_range(0..4)]))
+        } else { None };
+        let mut q_chain = q;
+        let kin: Box<dyn Kinematics> = match coupling {
+            Some((driven, coupled, scaling)) => {
+                q_chain[coupled] -= scaling * q_chain[driven];
+                Box::new(rs_opw_kinematics::parallelogram::Parallelogram { robot: std::sync::Arc::new(robot), driven, coupled, scaling })
+            }
+            None => Box::new(robot),
+        };
+        let robot = kin.as_ref();
+        let want = oracle::chain(&p, &q_chain);
         let res = guarded(|| (robot.forward(&q), robot.forward_with_joint_poses(&q)));
         match res {
             None => out.put(json!({"ev": "fk", "outcome": "panic", "class": class, "offsets": oc, "signs": (k / 3) % 64, "q": au6(&q)})),
